@@ -4,6 +4,7 @@ import random
 
 import core
 import rxcommon as rx
+import translate
 
 core.setup_repo_path()
 
@@ -11,7 +12,8 @@ core.setup_repo_path()
 class C14(core.Prop):
     pid = 'C14'
     lean_modules = ['TddaVerif.Props.C14']
-    theorems = []
+    theorems = ['TddaVerif.Props.C14.' + t for t in [
+        'clean_dict_eq_list', 'dict_eq_list', 'freq_irrelevant', 'repeat_is_noop']]
     quick_n = 300
     thorough_n = 15000
     rule = ('cases: example multisets (as C03) x option subsets x Size settings that force sampling x seeds; each is '
@@ -20,6 +22,11 @@ class C14(core.Prop):
             'repeated from different global PRNG states and the global state is compared before / after. '
             'non-trivial = >= 3 distinct examples; distinct by content')
     trusted_base = [
+        'as C03: hand-written Lean model of the batch path, tied by correspondence on the given order, one permutation and '
+        'the dictionary form of every non-sampling case',
+        'proved: dictionary = list form, irrelevance of frequencies and of repeats (no pruning); the model is a pure function '
+        'so a call cannot depend on history. NOT proved: invariance under reordering (the oracle permutes every case) and '
+        'everything about sampling, the PRNG and the regex memo (oracle only)',
         'set / dict iteration order of CPython for the run\'s PYTHONHASHSEED (the thorough tier repeats under a second hash seed)',
     ]
 
@@ -33,6 +40,25 @@ class C14(core.Prop):
     def gen_case(self, rng, i):
         return {'examples': rx.gen_examples(rng), 'opts': rx.gen_opts(rng), 'size': rx.gen_size(rng),
                 'seed': rng.choice([None, 1, 7, 2024]), 'perm_seed': rng.randrange(10 ** 6)}
+
+    def translate(self):
+        return translate.regenerate(['Rexpy'])
+
+    def _variants(self, case):
+        p = list(case['examples'])
+        random.Random(case.get('perm_seed', 0) + 1).shuffle(p)
+        return [(case['examples'], 'list'), (p, 'list'), (case['examples'], 'dict')]
+
+    def model_ops(self, case):
+        if not rx.nosampling(case['examples'], case['opts'], case['size']):
+            return []
+        return [rx.model_extract_op(ex, case['opts'], form) for ex, form in self._variants(case)]
+
+    def impl_outputs(self, case):
+        return [rx.impl_rex(ex, case['opts'], case['size'], case['seed'], form) for ex, form in self._variants(case)]
+
+    def canon_model(self, case, outs):
+        return rx.canon_rex(outs)
 
     def nontrivial_key(self, case):
         if case['size']:
